@@ -65,7 +65,7 @@ def run(tier):
             runs.append({"mode": mode, "nodes": nn, "txs": nt, "ticks": mt, "depth": depth,
                          "behaviours": r["behaviours"], "steps": r["steps"], "ops": r["ops"],
                          "diverging": sum(r["signatures"].values())})
-            for s in r.get("samples", [])[:1]:
+            for s in (r.get("samples") or [])[:1]:
                 res.sample({"call_sequence": [[x["op"], x["n"], x["t"], x["req"], x["txs"]] for x in json.loads(s)["ops"]]})
             behs = r.get("diverging_behaviours") or []
             for k, d in enumerate(r["divergences"]):
